@@ -51,7 +51,7 @@ def gen_obj(rng):
         f = lang.N(rng.choice(['and', 'or', 'add', 'until', 'since']), *rng.sample([inner, rng.choice([x, f])], 2))
     names = lang.variables(f) or [c.vars[0]]
     data = lang.gen_trace(rng, names, n)
-    obj = {'kind': kind, 'formula': lang.to_jsonable(f), 'data': data, 'reps': rng.choice([1, 2, 2, 3])}
+    obj = {'kind': kind, 'formula': lang.to_jsonable(f), 'data': data, 'reps': rng.choice([1, 2, 2, 3] if rng.random() < 0.97 else [12, 20])}
     if rng.random() < 0.3 and any(g[1] is not None for g in lang.walk(f)):
         obj['units'] = rng.choice(['s', 'ms', 'us'])
     if kind.startswith('dt') and rng.random() < 0.15 and any(g[1] is not None for g in lang.walk(f)) and not heavy_formula(f):
